@@ -187,6 +187,31 @@ func runC16(c *Check) {
 				}
 				for _, a := range cl.Common().Args {
 					at := TermOf(a, &Ctx{Fn: fn})
+					// the sentinel comes from a table of (sentinel, status) rows walked by a loop
+					if al, f := tableField(a, 0); al != nil && at.Op != "global" {
+						callee := cl.Common().StaticCallee()
+						for key, vs := range litStores(al) {
+							if !strings.HasSuffix(key, "]."+f) {
+								continue
+							}
+							for _, v := range vs {
+								vt := TermOf(v, &Ctx{Fn: fn})
+								if vt.Op != "global" || !strings.HasPrefix(vt.Name, "da.Err") {
+									continue
+								}
+								nSites++
+								inst := fnShort(fn) + " ⟂ " + fnShort(callee) + "(" + strings.TrimPrefix(vt.Name, "da.") + ")"
+								if helperIsWireSafe(rp, callee) {
+									c.OK("C16-R2", inst, fnName(fn), rp.InstrPos(in), "classification (row of a table) through a helper that accepts identity or message containment", true)
+								} else if calleeUsesIdentity(rp, callee) {
+									c.Bad("C16-R2", inst, fnName(fn), rp.InstrPos(in), "classification through a helper that compares by identity only", nil)
+								} else {
+									nSites--
+								}
+							}
+						}
+						continue
+					}
 					if at.Op == "global" && strings.HasPrefix(at.Name, "da.Err") {
 						callee := cl.Common().StaticCallee()
 						// the helper must be wire-safe: errors.Is(e, target) || strings.Contains(e.Error(), target.Error())
